@@ -56,7 +56,7 @@ def add_rows(rng, e, kinds=None):
     return e2, new
 
 
-def model_reuse_stage(run, n):
+def model_reuse_stage(run, n, props=("C11",)):
     """the same model object polled twice (a long-running caller keeps the model between feeds): the second poll, whose feed has an
     extra unexpected unit, must give what a fresh model gives on that feed - nothing kept from the first poll may hide the unit"""
     C.use_repo()
@@ -98,6 +98,20 @@ def model_reuse_stage(run, n):
                     df = df.copy()
                     df["lower"], df["upper"] = np.asarray(iv.lower), np.asarray(iv.upper)
                     out["-".join(lv)] = df
+                    # C02: prediction and both bounds of a group are the sums over its units (counted votes of reporting and
+                    # unexpected units, unit predictions / bounds of the outstanding ones), taken from the frames of THIS poll
+                    allu = pd.concat([rep, nonrep, unexp])
+                    want = allu.groupby(lv)[[f"pred_{est}", f"lower_0.7_{est}", f"upper_0.7_{est}"]].sum().reset_index()
+                    got = df.merge(want, on=lv, how="left")
+                    for a, b in ((f"pred_{est}", f"pred_{est}_y" if f"pred_{est}_y" in got else f"pred_{est}"), ("lower", f"lower_0.7_{est}"),
+                                 ("upper", f"upper_0.7_{est}")):
+                        a2 = f"pred_{est}_x" if a == f"pred_{est}" and f"pred_{est}_x" in got else a
+                        if a != f"pred_{est}" and not isinstance(model, NonparametricElectionModel):
+                            continue  # the bounds are sums of unit bounds for the nonparametric estimator only
+                        bad = got[(got[a2] - got[b]).abs() > 1e-6]
+                        if len(bad) and "sum_mismatch" not in out:
+                            out["sum_mismatch"] = {"level": lv, "column": a, "group": [str(x) for x in bad.iloc[0][lv]],
+                                                   "reported": float(bad.iloc[0][a2]), "sum_of_units": float(bad.iloc[0][b])}
             return out
 
         case = {"model_reuse": M.__name__, "election": e.describe(), "extra_rows": new}
@@ -112,6 +126,16 @@ def model_reuse_stage(run, n):
         except Exception as ex:
             run.violation("polling a model object a second time failed: " + type(ex).__name__, input=case, impl=str(ex)[:200],
                           predicate="unexpected_adds_votes", signature="C11:reuse-raise", election=e2.to_json())
+            continue
+        mism = second.pop("sum_mismatch", None)
+        fresh.pop("sum_mismatch", None)
+        if "C02" in props:
+            if mism:
+                run.violation("second poll of one model object: an aggregate prediction / bound is not the sum over the units of that poll",
+                              input=case, impl=mism, predicate="source_np_bounds_are_sums / source_pred_is_sum", signature="C02:reuse-sum",
+                              election=e2.to_json())
+            else:
+                run.traces += 1
             continue
         d = P.diff_tables(fresh, second)
         if d:
